@@ -7,11 +7,18 @@ VERIF=$(pwd)
 F=$(readlink -f "${1:?replay file}")
 export GOFLAGS=-mod=mod GOPROXY=off GOSUMDB=off GOTOOLCHAIN=local CGO_ENABLED=0
 mkdir -p bin
-cat /repo/go.sum sim/go.sum.extra 2>/dev/null | sort -u > sim/go.sum
+REPO=${VERIF_REPO:-/repo}   # (VERIF_REPO: a scratch copy of the repository, used by this directory's own sensitivity scripts)
+MODFILE=""
+if [ "$REPO" != /repo ]; then
+  sed "s#=> /repo#=> $REPO#" sim/go.mod > bin/alt-replay-$$.mod; cat "$REPO/go.sum" sim/go.sum.extra 2>/dev/null | sort -u > bin/alt-replay-$$.sum; MODFILE="-modfile=$VERIF/bin/alt-replay-$$.mod"
+  trap 'rm -f bin/alt-replay-$$.mod bin/alt-replay-$$.sum' EXIT
+else
+  cat /repo/go.sum sim/go.sum.extra 2>/dev/null | sort -u > sim/go.sum
+fi
 BIN=$VERIF/bin/replay-$$.test
 RACE=""; CPU=1
 if grep -q "\"property\": \"C14R\"" "$F" 2>/dev/null; then RACE="-race"; CPU=8; export CGO_ENABLED=1 GORACE="halt_on_error=1 exitcode=66"; fi
-if ! (cd sim && go1.26.8 test -tags verif $RACE -c -o "$BIN" .) > bin/replay-build-$$.log 2>&1; then cat bin/replay-build-$$.log; rm -f bin/replay-build-$$.log; exit 2; fi
+if ! (cd sim && go1.26.8 test $MODFILE -tags verif $RACE -c -o "$BIN" .) > bin/replay-build-$$.log 2>&1; then cat bin/replay-build-$$.log; rm -f bin/replay-build-$$.log; exit 2; fi
 rm -f bin/replay-build-$$.log
 OUT=$(SIM_ROLE=replay SIM_FILE="$F" SIM_VERBOSE=1 GOMAXPROCS=2 "$BIN" -test.run "^TestSim$" -test.timeout 0 -test.cpu $CPU 2>&1)
 rm -f "$BIN"
